@@ -518,7 +518,10 @@ func ctRandHist(c *hx.Ctx, reloads bool) *ctHist {
 		case 1:
 			h.v0 = uint16(c.Intn(65536))
 		default:
-			h.v0 = uint16(65535 - c.Intn(4)) // the wrap happens within the history
+			h.v0 = uint16(c.Intn(65000))
+			if c.Chance(0.35) {
+				h.v0 = uint16(65535 - c.Intn(4)) // the wrap happens within the history (known finding F25)
+			}
 		}
 	}
 	for i := 0; i < nr; i++ {
@@ -621,7 +624,8 @@ func ctSweepConntrack() []*ctHist {
 	g := ctFlow{peer: 1, local: netip.MustParseAddr("10.0.0.1"), remote: netip.MustParseAddr("10.0.0.3"), lport: 53, rport: 40001, proto: firewall.ProtoUDP}
 	pkt := func(f ctFlow, in bool) ctEv { return ctEv{kind: 0, flow: f, peer: f.peer, incoming: in} }
 	sl := func(d int64) ctEv { return ctEv{kind: 1, d: d} }
-	// the two witnesses: F4 (5 h idle, no churn) and the exact-instant eviction (props/C18.v, C18_boundary_churn_refuted)
+	// witnesses of repaired defects, kept as ordinary cases: F4 (5 h idle, no churn) and F24 (idle == timeout exactly,
+	// with and without an unrelated flow inserted at that instant; props/C18.v C18_nonvacuous)
 	hs = append(hs,
 		&ctHist{kind: "sweep/witness/f4", rulesets: []ctRules{{in: []int{0}}}, to0: ctDefaultTo,
 			evs: []ctEv{pkt(f4(firewall.ProtoUDP), true), pkt(f4(firewall.ProtoUDP), false), sl(5 * int64(time.Hour)), pkt(f4(firewall.ProtoUDP), false)}},
@@ -684,6 +688,9 @@ func ctSweepReload() []*ctHist {
 		"unsafe-on":     {rl(0, 1, to)},
 		"unsafe-on-off": {rl(0, 1, to), pkt(u, true), pkt(u, false), rl(0, 0, to), pkt(u, false), rl(0, 1, to), pkt(u, false)},
 	}
+	// F25 first: rulesVersion 65535, a reload that changes nothing about the rules (timeouts only), the reply is refused
+	hs = append(hs, &ctHist{kind: "reload-version-wrap", rulesets: rulesets, to0: to, v0: 65535,
+		evs: []ctEv{pkt(f, true), pkt(f, false), rl(0, 0, to2), pkt(f, false)}})
 	names := []string{"revert", "cut", "cut-then-ask", "same-words", "timeouts-only", "unchanged", "other-dir", "unsafe-on", "unsafe-on-off"}
 	for _, v0 := range []uint16{0, 7, 65533, 65534, 65535} {
 		for _, name := range names {
